@@ -2,4 +2,4 @@ From Coq Require Import ZArith Floats Extraction ExtrOcamlBasic ExtrOCamlFloats 
 From CMI Require Import Cxx.C17_Defs.
 Extraction "c17_model.ml" get_mantissa orient3d_exact insphere_exact orient3d_filter insphere_filter_dec
   orient3d_adaptive insphere_adaptive orient_mant insphere_mant orient_det insphere_det orient_det_fixed insphere_det_fixed
-  sign_of pt_in_rangeb.
+  sign_of pt_in_rangeb adaptive_of.
